@@ -557,3 +557,14 @@ impl Stream for ClientStream {
         Pin::new(&mut self.stream).poll_next(cx)
     }
 }
+
+#[cfg(feature = "verif-hooks")]
+impl Client {
+    /// Wraps an already established connection (verification harness only).
+    pub(crate) fn verif_from_conn(conn: Conn) -> Self {
+        Self {
+            conn,
+            local_addr: None,
+        }
+    }
+}
